@@ -68,6 +68,9 @@ def probes(edges, sel, extra, step, eps):
         s = exact.slack(e, k, edges, eps)
         vals += [e] + [exact.ulp_step(e, d) for d in (1, -1, 2, -2, 3, -3, 4096, -4096)]
         vals += [e - 2 * s, e - 10 * s, e - 1000 * s, e + hf / 2]
+        if k % 3 == 0:
+            # every distance scale between the round-off tolerance and the bin width (must stay in the lower bin)
+            vals += [e - hf * 10.0 ** (-j) for j in range(1, 13)]
     e0, el = float(edges[0]), float(edges[-1])
     s0 = exact.slack(e0, 0, edges, eps)
     vals += [e0 - hf, exact.ulp_step(e0, -1), e0 - 2 * s0, e0 - 1e6]
@@ -192,15 +195,25 @@ def check_case(ctx, case):
     if o.ok:
         if must_raise:
             ctx.violation("discretize_did_not_reject", {"n_out": sum(a == {-1} for a in allowed)})
-        else:
-            for v, d, a in zip(vals, o.value, allowed):
-                if float(d) not in {fedges[k] for k in a if k >= 0}:
-                    ctx.violation("discretize_wrong", {"v": v, "got": float(d), "admissible": sorted(a)}, minimal(case, v))
     elif isinstance(o.exc, CSEPException):
         if not may_raise:
             ctx.violation("discretize_rejected_in_range", {"exc": str(o.exc)})
     else:
         ctx.unexpected(o, "discretize")
+    # the values that are certainly in range, value by value (the full probe list always holds out-of-range values)
+    inr = [(v, a) for v, a in zip(vals, allowed) if -1 not in a]
+    if inr:
+        sub = [v for v, _ in inr]
+        o = call(calc.discretize, numpy.array(sub) if inp == "ndarray" else sub, bins, right_continuous=rc)
+        if not o.ok:
+            if isinstance(o.exc, CSEPException):
+                ctx.violation("discretize_rejected_in_range", {"exc": str(o.exc)})
+            else:
+                ctx.unexpected(o, "discretize")
+        else:
+            for (v, a), d in zip(inr, o.value):
+                if float(d) not in {fedges[k] for k in a if k >= 0}:
+                    ctx.violation("discretize_wrong", {"v": v, "got": float(d), "admissible": sorted(a)}, minimal(case, v))
 
     if not rc:
         return
@@ -218,19 +231,35 @@ def check_case(ctx, case):
             if int(g) not in a:
                 ctx.violation("get_mag_idx:" + (classify(int(g), a) or "?"), {"v": v, "got": int(g), "admissible": sorted(a)}, minimal(case, v))
     fore = GriddedForecast(data=numpy.zeros((1, n)), region=region, magnitudes=bins)
+    # (a) the whole probe list: rejected iff some value is out of range
     o = call(fore.get_magnitude_index, numpy.array(vals))
     if o.ok:
         if must_raise:
             ctx.violation("get_magnitude_index_did_not_reject", None)
-        else:
-            for v, g, a in zip(vals, o.value, allowed):
-                if int(g) not in a:
-                    ctx.violation("get_magnitude_index:" + (classify(int(g), a) or "?"), {"v": v, "got": int(g)}, minimal(case, v))
     elif isinstance(o.exc, ValueError):
         if not may_raise:
             ctx.violation("get_magnitude_index_rejected_in_range", {"exc": str(o.exc)})
     else:
         ctx.unexpected(o, "get_magnitude_index")
+    # (b) the values that are certainly in range: index by index
+    inr = [(v, a) for v, a in zip(vals, allowed) if -1 not in a]
+    if inr:
+        o = call(fore.get_magnitude_index, numpy.array([v for v, _ in inr]))
+        if not o.ok:
+            if isinstance(o.exc, ValueError):
+                ctx.violation("get_magnitude_index_rejected_in_range", {"exc": str(o.exc)})
+            else:
+                ctx.unexpected(o, "get_magnitude_index")
+        else:
+            for (v, a), g in zip(inr, o.value):
+                if int(g) not in a:
+                    ctx.violation("get_magnitude_index:" + (classify(int(g), a) or "?"), {"v": v, "got": int(g), "admissible": sorted(a)}, minimal(case, v))
+    # (c) each value that is certainly below the first edge is rejected on its own
+    below = [v for v, a in zip(vals, allowed) if a == {-1}]
+    for v in below[:6]:
+        o = call(fore.get_magnitude_index, numpy.array([v]))
+        if o.ok:
+            ctx.violation("get_magnitude_index_did_not_reject", {"v": v, "got": [int(g) for g in o.value]}, minimal(case, v))
     # magnitude_counts on the unambiguous in-range values only (below-minimum events are C03's clause)
     sure = [(v, next(iter(a))) for v, a in zip(vals, allowed) if len(a) == 1 and -1 not in a]
     if sure:
